@@ -102,6 +102,31 @@ func earlyEvents(st State, got map[string][]specTask) string {
 	return ""
 }
 
+// earlySchedule reports a Schedule task of a hook that the specification has not yet enabled schedules for.
+func earlySchedule(st State, got map[string][]specTask) string {
+	on := map[string]bool{}
+	if l, ok := st["schedOn"].([]interface{}); ok {
+		for _, h := range l {
+			on[fmt.Sprint(h)] = true
+		}
+	} else {
+		return ""
+	}
+	for q, l := range got {
+		for _, t := range l {
+			if t.Type != "HookRun" {
+				continue
+			}
+			for _, cx := range t.Ctxs {
+				if cx.K == "Schedule" && !on[t.Hook] {
+					return fmt.Sprintf("queue %s holds a Schedule task of hook %s although its schedule bindings are not enabled yet (EnableScheduleBindings comes after the hook's Synchronizations)", q, t.Hook)
+				}
+			}
+		}
+	}
+	return ""
+}
+
 // heldAfterUnlock reports a binding that the specification has unlocked (Synchronization completed successfully)
 // while the real monitor still holds events back or is not enabled.
 func heldAfterUnlock(st State, f *opfix.Fixture) string {
@@ -624,6 +649,12 @@ func replayCase(n int, c Case, hookbin string) Result {
 			// an Event task of a binding whose Synchronization has not completed yet is a statement of its own
 			if early := earlyEvents(st, realQueues(f)); early != "" {
 				all = append([]SigDet{{"C06/event-before-synchronization", early}, {"C01/event-before-synchronization", early}}, all...)
+			}
+			// ... and a Schedule task of a hook whose schedule bindings are not enabled yet (its Synchronizations come first)
+			if op == "Tick" {
+				if early := earlySchedule(st, realQueues(f)); early != "" {
+					all = append([]SigDet{{"C06/schedule-task-before-enable", early}}, all...)
+				}
 			}
 			// ... and so are Events still held back for a binding whose Synchronization has completed
 			if held := heldAfterUnlock(st, f); held != "" {
